@@ -16,10 +16,14 @@ RTOL = 1e-9
 def observe(V):
     import coxeter
 
-    p = coxeter.shapes.ConvexPolyhedron(V)
+    # the solid is the hull of the points that were passed in: what the caller does with the array afterwards is not part of it
+    Vin = np.array(V, dtype=np.float64)
+    p = coxeter.shapes.ConvexPolyhedron(Vin)
+    vol, area, cen = float(p.volume), float(p.surface_area), np.array(p.centroid, float)
+    Vin *= 2.0
+    Vin += 1.0
     obs = dict(
-        volume=float(p.volume), surface_area=float(p.surface_area),
-        centroid=np.array(p.centroid, float), inertia=np.array(p.inertia_tensor, float),
+        volume=vol, surface_area=area, centroid=cen, inertia=np.array(p.inertia_tensor, float),
         face_areas=np.array(p.get_face_area(), float), face_centroids=np.array(p.face_centroids, float),
         simplices=np.array(p.simplices, int), faces=[list(map(int, f)) for f in p.faces],
         coplanar=[list(map(int, s)) for s in p._coplanar_simplices],
